@@ -16,6 +16,13 @@ working tree's source with `ast` and written to lean/FordModel/Generated/C17.lea
                `get_page_tree(...)` call, the two `PageNode(...)` calls (index.md / sibling page) and the call
                in ford.main; each bound to the callee's parameters (parameter -> expression passed)
   readTextArg  PageNode.__init__ : `Path(path).read_text(<expr>)` - how the file is decoded
+  mediaSrcKey / mediaDestSeg   Documentation.writeout : `copytree(self.data[<key>], out_dir / <constants>)`
+               (the one copytree call whose source is a project setting) - where the media directory is put
+  outDirKey    Documentation.writeout : `out_dir = self.data[<key>]`
+  aliasRootExpr   ford.main : `url_path = pathlib.Path(<expr>)` - what the predefined aliases are rooted at
+  mdBaseUrlExpr   ford.main : `MetaMarkdown(..., base_url=<expr>, aliases=aliases, ...)`
+  aliasLayers  ford.main : the values `aliases` is built from, in source order (`copy.copy(x)`, every
+               `aliases.update(y)`; the dict literal of the predefined aliases is written `<predefined>`)
 
 Every extractor raises when its construct is not found (tie broken, never a pass).
 """
@@ -81,6 +88,98 @@ def alias_table():
                 out.append((k.value, segs))
             return out
     raise NotFound("aliases.update({... 'page' ...}) in ford.main")
+
+
+def media_copy():
+    """Documentation.writeout: copytree(self.data["media_dir"], out_dir / "media")"""
+    fn = _func(_parse("ford/output.py"), "writeout", "Documentation")
+    out_key = None
+    for n in ast.walk(fn):
+        tgt = None
+        if isinstance(n, ast.AnnAssign) and n.value is not None:
+            tgt = n.target
+        elif isinstance(n, ast.Assign) and len(n.targets) == 1:
+            tgt = n.targets[0]
+        if isinstance(tgt, ast.Name) and tgt.id == "out_dir":
+            k = _data_key(n.value)
+            if k is None or out_key is not None:
+                raise NotFound("Documentation.writeout: exactly one `out_dir = self.data[<key>]`")
+            out_key = k
+    if out_key is None:
+        raise NotFound("Documentation.writeout: out_dir = self.data[<key>]")
+    found = []
+    for c in _calls_to(fn, "copytree"):
+        if len(c.args) != 2 or c.keywords:
+            raise NotFound("Documentation.writeout: copytree(<src>, <dst>)")
+        k = _data_key(c.args[0])
+        if k is None:
+            continue
+        left, segs = _div_chain(c.args[1])
+        if not (isinstance(left, ast.Name) and left.id == "out_dir") or None in segs:
+            raise NotFound(f"Documentation.writeout: copytree(self.data[{k!r}], out_dir / <constants>)")
+        found.append((k, segs))
+    if len(found) != 1:
+        raise NotFound(f"Documentation.writeout: exactly one copytree of a project setting, found {found}")
+    return found[0][0], found[0][1], out_key
+
+
+def _data_key(node):
+    """self.data["key"] -> "key" """
+    if (isinstance(node, ast.Subscript) and isinstance(node.value, ast.Attribute) and node.value.attr == "data"
+            and isinstance(node.value.value, ast.Name) and node.value.value.id == "self"
+            and isinstance(node.slice, ast.Constant) and isinstance(node.slice.value, str)):
+        return node.slice.value
+    return None
+
+
+def alias_setup():
+    """ford.main: what `aliases` is built from (in source order), what the predefined aliases are rooted
+    at, and what MetaMarkdown gets as base_url / aliases"""
+    main = _func(_parse("ford/__init__.py"), "main")
+    layers = []
+    root = None
+    for st in main.body:
+        if isinstance(st, ast.Assign) and len(st.targets) == 1 and isinstance(st.targets[0], ast.Name):
+            name = st.targets[0].id
+            if name == "aliases":
+                v = st.value
+                if (isinstance(v, ast.Call) and isinstance(v.func, ast.Attribute) and v.func.attr == "copy"
+                        and len(v.args) == 1):
+                    layers.append(_expr(v.args[0]))
+                else:
+                    layers.append(_expr(v))
+            elif name == "url_path":
+                v = st.value
+                if not (isinstance(v, ast.Call) and isinstance(v.func, ast.Attribute) and v.func.attr == "Path"
+                        and len(v.args) == 1 and not v.keywords) or root is not None:
+                    raise NotFound("ford.main: exactly one `url_path = pathlib.Path(<expr>)`")
+                root = _expr(v.args[0])
+        elif (isinstance(st, ast.Expr) and isinstance(st.value, ast.Call)
+              and isinstance(st.value.func, ast.Attribute) and isinstance(st.value.func.value, ast.Name)
+              and st.value.func.value.id == "aliases"):
+            c = st.value
+            if c.func.attr != "update" or len(c.args) != 1 or c.keywords:
+                raise NotFound(f"ford.main: aliases.{c.func.attr}(...) is not a plain update(<mapping>)")
+            a = c.args[0]
+            if isinstance(a, ast.Dict):
+                keys = [k.value for k in a.keys if isinstance(k, ast.Constant)]
+                layers.append("<predefined>" if "page" in keys else ast.unparse(a))
+            else:
+                layers.append(_expr(a))
+    # any other statement of main that touches `aliases` before it is handed over (nested, augmented, ...)
+    n_touch = sum(1 for n in ast.walk(main) if isinstance(n, ast.Name) and n.id == "aliases")
+    mds = _calls_to(main, "MetaMarkdown")
+    if len(mds) != 1:
+        raise NotFound(f"ford.main: exactly one MetaMarkdown(...) call, found {len(mds)}")
+    kw = {k.arg: k.value for k in mds[0].keywords}
+    if not (isinstance(kw.get("aliases"), ast.Name) and kw["aliases"].id == "aliases") or "base_url" not in kw:
+        raise NotFound("ford.main: MetaMarkdown(..., base_url=<expr>, aliases=aliases)")
+    if root is None or not layers:
+        raise NotFound("ford.main: url_path = pathlib.Path(<expr>) / aliases = ...")
+    if n_touch != len(layers) + 1:
+        raise NotFound(f"ford.main: `aliases` is used {n_touch} times, expected one assignment, "
+                       f"{len(layers) - 1} update(...) statements and the MetaMarkdown argument")
+    return {"aliasRootExpr": root, "mdBaseUrlExpr": _expr(kw["base_url"]), "aliasLayers": layers}
 
 
 def _assigned_chain(fn, pred, what, strip_tail=0):
@@ -287,7 +386,12 @@ def strlist(xs):
 def extract():
     outfile_is_pagedir()
     index, suffix, first, last = pagetree_constants()
+    media_key, media_seg, out_key = media_copy()
     return {
+        "mediaSrcKey": media_key,
+        "mediaDestSeg": media_seg,
+        "outDirKey": out_key,
+        **alias_setup(),
         "aliasTable": alias_table(),
         "pageDirSeg": page_dir_seg(),
         "locSeg": loc_seg(),
@@ -349,6 +453,21 @@ def subNodeCall : List (Str × Str) := {pairs(t["subNodeCall"])}
 def mainCall : List (Str × Str) := {pairs(t["mainCall"])}
 /-- `Path(path).read_text(...)` in `PageNode.__init__`: the encoding expression -/
 def readTextArg : Str := {chars(t["readTextArg"])}
+
+/-! the media directory and the set-up of the aliases -/
+
+/-- `Documentation.writeout`: `copytree(self.data[<key>], out_dir / ...)` - the project setting that is copied -/
+def mediaSrcKey : Str := {chars(t["mediaSrcKey"])}
+/-- ... and where below the output directory it is put -/
+def mediaDestSeg : List Str := {strlist(t["mediaDestSeg"])}
+/-- `Documentation.writeout`: `out_dir = self.data[<key>]` -/
+def outDirKey : Str := {chars(t["outDirKey"])}
+/-- `ford.main`: `url_path = pathlib.Path(<expr>)`, the root of the predefined aliases -/
+def aliasRootExpr : Str := {chars(t["aliasRootExpr"])}
+/-- `ford.main`: `MetaMarkdown(..., base_url=<expr>, ...)`, the directory links are made relative in -/
+def mdBaseUrlExpr : Str := {chars(t["mdBaseUrlExpr"])}
+/-- `ford.main`: what `aliases` is built from, in source order (later layers win) -/
+def aliasLayers : List Str := {strlist(t["aliasLayers"])}
 
 end Ford.Gen.C17
 """
